@@ -24,6 +24,7 @@ type Packet struct {
 	Data     []byte
 	Conn     int  // tcp: id of the writing end; udp: 0
 	Driver   bool // written by a driver-side endpoint (a peer), not by the program
+	Partial  bool // tcp: the environment cut this write short (fault script): only a prefix was delivered
 }
 
 type logNode struct {
@@ -121,7 +122,7 @@ func LogSince(from int) []Packet {
 	var out []Packet
 	for n := Fab.head; n != nil; n = n.next {
 		if n.p.Seq >= from {
-			out = append(out, Packet{Seq: n.p.Seq, Proto: n.p.Proto, From: n.p.From, To: n.p.To, Data: nclone(n.p.Data), Conn: n.p.Conn, Driver: n.p.Driver})
+			out = append(out, Packet{Seq: n.p.Seq, Proto: n.p.Proto, From: n.p.From, To: n.p.To, Data: nclone(n.p.Data), Conn: n.p.Conn, Driver: n.p.Driver, Partial: n.p.Partial})
 		}
 	}
 	return out
@@ -580,8 +581,8 @@ type TCPConn struct {
 	Partial     int
 	NWrites     int
 	Dialled     bool
-	driver     bool
-	sync       uint64
+	driver      bool
+	sync        uint64
 }
 
 type TCPListener struct {
@@ -674,7 +675,7 @@ func (c *TCPConn) Write(p []byte) (int, error) {
 		// the connection takes the first k bytes, then breaks
 		data := nclone(p[:k])
 		c.peer.rq = append(c.peer.rq, data)
-		addLog(Packet{Proto: "tcp", From: c.laddr.String(), To: c.raddr.String(), Data: data, Conn: c.id, Driver: c.driver})
+		addLog(Packet{Proto: "tcp", From: c.laddr.String(), To: c.raddr.String(), Data: data, Conn: c.id, Driver: c.driver, Partial: true})
 		c.PartialFail, c.Partial, c.FailWrites = 0, k, -1
 		return k, errors.New("write: connection reset by peer after a partial write (sim fault)")
 	}
